@@ -1,0 +1,52 @@
+//go:build verif
+
+// Contracts (machine-checked by /verif/engine, see /verif/DESIGN.md). Comment-only file.
+package netutil
+
+// ---- C33: trusted networks ----------------------------------------------------------------------------
+
+// CIDR text (contains '/'): parsed as a prefix, IPv4-mapped forms rejected *on the parsed address*, result is the
+// masked prefix of the unmapped address. Otherwise: parsed as an address, mapped forms rejected, full-length prefix.
+//@ func parseNetwork
+//@   props C33
+//@   at-call Contains as hasSlash: assert streq(arg0, network) && streq(arg1, "/")
+//@   at-call ParsePrefix as pp: assert called(hasSlash) && res(hasSlash) && streq(arg0, network)
+//@   at-call Addr#1 as pa1: assert arg0 == res(pp, 0) && res(pp, 1) == nil
+//@   at-call Is4In6#1 as mapped1: assert arg0 == res(pa1)
+//@   at-call Addr#2 as pa2: assert arg0 == res(pp, 0) && called(mapped1) && !res(mapped1)
+//@   at-call Unmap#1 as um1: assert arg0 == res(pa2)
+//@   at-call Bits as bits: assert arg0 == res(pp, 0)
+//@   at-call PrefixFrom#1 as pf1: assert arg0 == res(um1) && arg1 == res(bits)
+//@   at-call Masked as msk: assert arg0 == res(pf1) && called(mapped1) && !res(mapped1)
+//@   at-call ParseAddr as pad: assert called(hasSlash) && !res(hasSlash) && streq(arg0, network)
+//@   at-call Is4In6#2 as mapped2: assert arg0 == res(pad, 0) && res(pad, 1) == nil
+//@   at-call Unmap#2 as um2: assert arg0 == res(pad, 0) && called(mapped2) && !res(mapped2)
+//@   at-call BitLen as bl: assert arg0 == res(um2)
+//@   at-call PrefixFrom#2 as pf2: assert arg0 == res(um2) && arg1 == res(bl)
+//@   ensures [cidr-result] result.1 == nil && called(pp) ==> called(msk) && result.0 == res(msk)
+//@   ensures [addr-result] result.1 == nil && called(pad) ==> called(pf2) && result.0 == res(pf2)
+//@   ensures [bad-cidr-rejected] called(pp) && res(pp, 1) != nil ==> result.1 != nil
+//@   ensures [mapped-cidr-rejected] called(mapped1) && res(mapped1) ==> result.1 != nil
+//@   ensures [bad-addr-rejected] called(pad) && res(pad, 1) != nil ==> result.1 != nil
+//@   ensures [mapped-addr-rejected] called(mapped2) && res(mapped2) ==> result.1 != nil
+//@   ensures [one-branch] called(pp) != called(pad)
+
+// Membership: a host that does not parse as an IP is never trusted; otherwise the unmapped, zone-less address is
+// tested against every prefix and the answer is true iff some prefix contains it.
+//@ func (TrustedNetworks).ContainsStr
+//@   props C33
+//@   at-call ParseAddr as pa: assert streq(arg0, host)
+//@   at-call Unmap as um: assert arg0 == res(pa, 0) && res(pa, 1) == nil
+//@   at-call WithZone as wz: assert arg0 == res(um) && streq(arg1, "")
+//@   at-call Contains as pc: assert arg1 == res(wz) && called(wz)
+//@   loop 1: invariant called(wz) && rangeindex >= -1 && rangeindex < len(t)
+//@   loop 1: invariant forall j int :: 0 <= j && j <= rangeindex ==> !t[j].Contains(res(wz))
+//@   ensures [not-an-ip] called(pa) && (res(pa, 1) != nil ==> !result)
+//@   ensures [member-iff-some-prefix] res(pa, 1) == nil ==> (result <==> exists j int :: 0 <= j && j < len(t) && t[j].Contains(res(wz)))
+
+//@ func (TrustedNetworks).Contains
+//@   props C33
+//@   at-call Host as host: assert arg0 == addr && addr != nil
+//@   at-call ContainsStr as cs: assert arg0 == t && streq(arg1, res(host))
+//@   ensures [nil-untrusted] addr == nil ==> !result && !called(cs)
+//@   ensures [delegates] addr != nil ==> called(cs) && result == res(cs)
